@@ -343,9 +343,13 @@ def saveBackup (w : World) (patchName name : Bytes) (f : FileSt Bytes) : WR Worl
   | some k =>
     match w.op (.createDirAll k.dropLast) with
     | .ok w =>
-      match w.op (.createFile k) with
-      | .ok w => writeNew w k f.perms (bytesOf f.content)
-      | .notFound w | .failed w => .error (.err, w)
+      -- an old backup file is unlinked first
+      match w.op (.removeFile k) with
+      | .failed w => .error (.err, w)
+      | .ok w | .notFound w =>
+        match w.op (.createFile k) with
+        | .ok w => writeNew w k f.perms (bytesOf f.content)
+        | .notFound w | .failed w => .error (.err, w)
     | .notFound w | .failed w => .error (.err, w)
 
 /-- `rollback_and_save_backup_files` -/
